@@ -54,6 +54,14 @@ def histories(kind):
                                                            {"op": "compact", "h": "main"}]))
                 out.append((f"optimize-after-{ty}", pre + [{"op": "append", "h": "main", "rows": [[7, 1], [8, -1]]},
                                                             {"op": "optimize_indices", "h": "main"}]))
+                # the index update merges stored pages with new rows: new values above / below / between the old ones,
+                # with NULLs on both sides, in two rounds
+                out.append((f"optimize-grow-after-{ty}", pre + [{"op": "append", "h": "main", "rows": [[7, 3], [8, -1], [9, 4]]},
+                                                                 {"op": "optimize_indices", "h": "main"}]))
+                out.append((f"optimize-twice-after-{ty}", pre + [{"op": "append", "h": "main", "rows": [[7, 4], [8, -1]]},
+                                                                  {"op": "optimize_indices", "h": "main"},
+                                                                  {"op": "append", "h": "main", "rows": [[9, 0], [10, 3], [11, -1]]},
+                                                                  {"op": "optimize_indices", "h": "main"}]))
     return out
 
 
